@@ -33,6 +33,11 @@ type Job struct {
 	execs  []execRef
 	nodes  []nodeRef
 	tuples [][][]interp.ArgSpec
+	// badAt[method][tuple index] describes the out-of-domain argument of the
+	// tuples appended by BadTuples (absent for regular tuples).
+	badAt []map[int]BadArg
+	// BadArgExecs counts the executions made with an out-of-domain argument.
+	BadArgExecs int64
 
 	Executions   int64 // interpreter executions (including the ones not replayed)
 	NotReplayed  int64 // executions with a safety violation in the interpreter (C01's business; C behaviour undefined)
@@ -73,6 +78,22 @@ func Enumerate(pi *ProgInfo, opt Options) *Job {
 		j.Reduced = j.Reduced || red
 		j.CappedTuples = j.CappedTuples || capd
 	}
+	// Out-of-domain argument tuples (the run-time argument check of public
+	// methods): derived from the first regular tuple of each method.
+	j.badAt = make([]map[int]BadArg, len(pi.Methods))
+	nRegular := make([]int, len(pi.Methods))
+	for i, mi := range pi.Methods {
+		nRegular[i] = len(j.tuples[i])
+		j.badAt[i] = map[int]BadArg{}
+		if len(j.tuples[i]) == 0 {
+			continue
+		}
+		bt, what := BadTuples(mi.Fn, j.tuples[i][0])
+		for k := range bt {
+			j.badAt[i][len(j.tuples[i])] = what[k]
+			j.tuples[i] = append(j.tuples[i], bt[k])
+		}
+	}
 	root := p.NewObject(pi.Recv)
 	type node struct {
 		obj   *interp.Object
@@ -90,21 +111,34 @@ func Enumerate(pi *ProgInfo, opt Options) *Job {
 		n := queue[qi]
 		for mx, mi := range pi.Methods {
 			f := mi.Fn
-			for tx, tup := range j.tuples[mx] {
-				if j.Executions >= int64(opt.MaxExec) {
+			// The out-of-domain tuples come first (so that the execution cap does
+			// not cut them) and are tried from the first 8 receiver states only.
+			order := make([]int, 0, len(j.tuples[mx]))
+			if qi < 8 {
+				for tx := nRegular[mx]; tx < len(j.tuples[mx]); tx++ {
+					order = append(order, tx)
+				}
+			}
+			for tx := 0; tx < nRegular[mx]; tx++ {
+				order = append(order, tx)
+			}
+			for _, tx := range order {
+				tup := j.tuples[mx][tx]
+				_, isBad := j.badAt[mx][tx]
+				if j.Executions >= int64(opt.MaxExec) && !isBad {
 					j.CappedExec = true
 					goto done
 				}
 				obj := n.obj.Clone()
-				args := make([]interp.Value, len(tup))
-				for i, a := range tup {
-					args[i] = p.MakeArg(a)
+				args := MakeArgs(p, f, tup)
+				if isBad {
+					j.BadArgExecs++
 				}
 				// The script needs the arguments as they are before the call.
 				mark := len(s.B)
 				s.Load(qi)
 				flagsAt := s.Call(mx, true, args)
-				res := m.CallPublicValues(obj, f, interp.CallSpec{Method: f.Name, Args: tup}, args)
+				res := CallEnveloped(m, p, obj, f, interp.CallSpec{Method: f.Name, Args: tup}, args)
 				j.Executions++
 				if res.Bug != "" || res.Viol != nil || res.Hung {
 					s.B = s.B[:mark]
@@ -193,11 +227,8 @@ func ReplayInterp(pi *ProgInfo, calls []interp.CallSpec) (blocks [][]string, mas
 		if mi == nil {
 			return blocks, masks, "no method " + c.Method
 		}
-		args := make([]interp.Value, len(c.Args))
-		for i, a := range c.Args {
-			args[i] = p.MakeArg(a)
-		}
-		res := m.CallPublicValues(obj, mi.Fn, c, args)
+		args := MakeArgs(p, mi.Fn, c.Args)
+		res := CallEnveloped(m, p, obj, mi.Fn, c, args)
 		if res.Viol != nil {
 			return blocks, masks, "interpreter: " + res.Viol.String()
 		}
@@ -226,10 +257,7 @@ func HistoryScript(pi *ProgInfo, calls []interp.CallSpec, masks []bool) []byte {
 				mx = x.Index
 			}
 		}
-		args := make([]interp.Value, len(c.Args))
-		for i, a := range c.Args {
-			args[i] = pi.P.MakeArg(a)
-		}
+		args := MakeArgs(pi.P, pi.Methods[mx].Fn, c.Args)
 		at := s.Call(mx, true, args)
 		if ci < len(masks) && masks[ci] {
 			s.MaskRI(at)
@@ -237,3 +265,16 @@ func HistoryScript(pi *ProgInfo, calls []interp.CallSpec, masks []bool) []byte {
 	}
 	return s.B
 }
+
+// BadArgOf tells whether execution k was made with an out-of-domain argument.
+func (j *Job) BadArgOf(k int) (BadArg, bool) {
+	if k < 0 || k >= len(j.execs) {
+		return BadArg{}, false
+	}
+	e := j.execs[k]
+	b, ok := j.badAt[e.method][int(e.tuple)]
+	return b, ok
+}
+
+// NumExecs is the number of executions replayed on the C side.
+func (j *Job) NumExecs() int { return len(j.execs) }
